@@ -263,7 +263,16 @@ impl<'a> AnalyzeContext<'a, '_> {
                 }
                 typ
             }
-            DiscreteRange::Range(ref mut range) => self.range_type(scope, range, diagnostics)?,
+            DiscreteRange::Range(ref mut range) => {
+                let typ = self.range_type(scope, range, diagnostics)?;
+                // LRM 5.3.2.2: when both bounds are of type universal_integer,
+                // they are implicitly converted to the predefined type INTEGER
+                if typ == self.universal_integer() {
+                    self.integer().base()
+                } else {
+                    typ
+                }
+            }
         };
 
         if typ.is_discrete() {
